@@ -41,7 +41,10 @@ LEVEL_TEXT = (
 )
 LEVEL_NOTE = "Trusted: numba = Python semantics for this kernel; exact arithmetic. numba is not installed here, so no test executes this module at all."
 
-EDGES = ["a", "b", "c", "d"]
+import os as _os
+
+EDGES = ["a", "b", "c", "d", "e"] if _os.environ.get("SA_THOROUGH") else ["a", "b", "c", "d"]
+NB = len(EDGES) - 1
 
 
 def lin(s):
@@ -59,9 +62,9 @@ def run_kernel(P, order: OrderType, t1="t1", t2="t2"):
 
     ev = KernelEval(P, order, models={"numpy.isnan": m_isnan})
     # cell 0 is a fixed homogeneous cell strictly inside the last bin; cell 1 is the cell under study
-    out = [0, 0, 0]
+    out = [0] * NB
     outs = ev.run_paths(fi, lambda: dict(phi=[Data("phi0"), Data("phi1")], theta_1=[lin("t3"), lin(t1)], theta_2=[lin("t3"), lin(t2)],
-                                         theta_hat_1=[lin("a"), lin("b"), lin("c")], theta_hat_2=[lin("b"), lin("c"), lin("d")], output=out))
+                                         theta_hat_1=[lin(e) for e in EDGES[:-1]], theta_hat_2=[lin(e) for e in EDGES[1:]], output=out))
     return outs, out
 
 
@@ -71,10 +74,10 @@ def expected_bins(order: OrderType):
     nan = order.nan
     bounds = [x for x in ("t1", "t2") if x not in nan]
     if not bounds:
-        return [0, 0, 0], "both bounds NaN: the cell is skipped"
+        return [0] * NB, "both bounds NaN: the cell is skipped"
     lo = min(bounds, key=lambda x: r[x])
     hi = max(bounds, key=lambda x: r[x])
-    bins = [("a", "b"), ("b", "c"), ("c", "d")]
+    bins = list(zip(EDGES[:-1], EDGES[1:]))
     if r[lo] == r[hi]:
         # homogeneous cell: exactly one bin, bins half-open [lo, hi), the last one closed; nothing outside [a, d]
         th = r[lo]
@@ -128,19 +131,19 @@ def check(ctx):
         return
     kfi = P.func("transform:_interp_1d_conservative")
     ots = []
-    base_rank_t3 = None
+    T3 = F(4 * (NB - 1) + 2 + 4 * NB + 2, 2)
     for ot in order_types_point_vs_edges(["t1", "t2"], EDGES):
-        ot.rank["t3"] = F(4 * 2 + 2 + 4 * 3 + 2, 2)  # strictly between c and d
+        ot.rank["t3"] = T3  # strictly inside the last bin
         ots.append(ot)
     # NaN cases: the other bound in each slot
     for ot in order_types_point_vs_edges(["t1"], EDGES):
-        ot.rank["t3"] = F(4 * 2 + 2 + 4 * 3 + 2, 2)
+        ot.rank["t3"] = T3
         o2 = OrderType(dict(ot.rank), nan={"t2"})
         o2.rank["t2"] = 0
         ots.append(o2)
         o3 = OrderType({**{k: v for k, v in ot.rank.items() if k != "t1"}, "t2": ot.rank["t1"], "t1": 0}, nan={"t1"})
         ots.append(o3)
-    o4 = OrderType({"a": 2, "b": 6, "c": 10, "d": 14, "t1": 0, "t2": 0, "t3": 12}, nan={"t1", "t2"})
+    o4 = OrderType({**{e: 4 * i + 2 for i, e in enumerate(EDGES)}, "t1": 0, "t2": 0, "t3": T3}, nan={"t1", "t2"})
     ots.append(o4)
     n_ok = 0
     first_bad = {}
@@ -157,12 +160,12 @@ def check(ctx):
         rule = "R07.3" if kind == "homogeneous cell" else "R07.5"
         problem = None
         try:
-            for j in range(3):
+            for j in range(NB):
                 mine = coef_of(out[j], "phi1")
                 fixed = coef_of(out[j], "phi0")
                 # the fixed first cell must stay in the last bin only (accumulation, not overwriting)
-                if (j == 2) != (len(fixed) == 1 and fixed[0].coef == 1) or (j != 2 and fixed):
-                    problem = f"bin {j}: the content of the preceding cell is {'lost' if j == 2 else 'duplicated'} (contributions must accumulate with +=)"
+                if (j == NB - 1) != (len(fixed) == 1 and fixed[0].coef == 1) or (j != NB - 1 and fixed):
+                    problem = f"bin {j}: the content of the preceding cell is {'lost' if j == NB - 1 else 'duplicated'} (contributions must accumulate with +=)"
                     break
                 w = want[j]
                 if w == 0:
